@@ -119,6 +119,11 @@ def strategy(tier):
     return strategy_(tier)
 
 
+def isin(value, candidates):
+    """Membership by equality (the value may be an unhashable dict)."""
+    return any(type(value) is type(c) and value == c for c in candidates)
+
+
 def build(spec, ctx):
     processes, topology = {}, {}
     for p in spec['procs']:
@@ -245,14 +250,14 @@ def run_case(spec):
                              'store.py:set_value')
                     return res
             elif node in own_init:
-                if got not in own_init[node]:
+                if not isin(got, own_init[node]):
                     res.fail('process_initial', 'node %r holds %r, the '
                              'process\'s initial_state() says %r'
                              % (node, got, sorted(own_init[node])),
                              'composer.py:_get_composite_state_recur')
                     return res
             else:
-                if got not in defaults:
+                if not isin(got, defaults):
                     res.fail('default', 'node %r holds %r, declared defaults '
                              '%r, no initial value' % (node, got,
                                                        sorted(defaults)),
@@ -310,12 +315,12 @@ def check_composite_states(spec, res, comp):
             if d is None:
                 continue
             got = getp(dflt, list(node), KeyError)
-            others = {getp(q['schema'], v2, {}).get('_default')
+            others = [getp(q['schema'], v2, {}).get('_default')
                       for q in spec['procs'] for v2, n2 in q['W']
-                      if n2 == node}
+                      if n2 == node]
             if spec['background']:
                 continue
-            if got not in others:
+            if not isin(got, others):
                 res.fail('composite.default_state', 'default_state() holds %r '
                          'at %r, declared defaults %r' % (got, node, others),
                          'composer.py:_get_composite_state_recur')
